@@ -192,6 +192,11 @@ func runSelfValidation(repo, verif, property string, names []string, seed int64)
 		m := o.m
 		if strings.Contains(o.txt, "MUTANT-SKIP") {
 			res.Skipped++
+			res.SkippedIDs = append(res.SkippedIDs, m.ID)
+			continue
+		}
+		if strings.Contains(o.txt, "MUTANT-NOCOMPILE") {
+			res.Failed = append(res.Failed, m.ID+": mutant does not type-check: "+firstLines(o.txt, 2))
 			continue
 		}
 		if !strings.Contains(o.txt, "MUTANT-DONE") {
